@@ -132,7 +132,7 @@ func (p *Path) TreePrefix() string {
 				return p.parent.TreePrefix() + p.relativePath + "/"
 			}
 		case p.relativePath != "":
-			return rootTreePrefix(p.relativePath)
+			return rootTreePrefix(p.relativePath, p.OID)
 		default:
 			// We don't know how this tree can be reached, so name
 			// it by its OID.
@@ -144,6 +144,10 @@ func (p *Path) TreePrefix() string {
 			// The parent is a tag.
 			return fmt.Sprintf("%s^{%s}", p.parent.BestPath(), p.objectType)
 		case p.relativePath != "":
+			if _, braces := scanRevision(p.relativePath); braces {
+				// See `rootTreePrefix()`.
+				return p.OID.String() + ":"
+			}
 			return p.relativePath + ":"
 		default:
 			return p.OID.String() + ":"
@@ -153,27 +157,47 @@ func (p *Path) TreePrefix() string {
 	}
 }
 
-// rootTreePrefix returns the prefix to use for the entries of a tree
-// that was named directly by `name` (a reference name or a
-// command-line argument). If `name` is already of the form
-// `<rev>:<path>`, then further path components can be appended to it;
-// otherwise, they have to be separated from it by a colon.
-func rootTreePrefix(name string) string {
+// scanRevision scans `name` the way Git does when it looks for the
+// ':' that separates a revision from a path: it returns the index of
+// the first ':' outside of braces (or -1 if there is none), and
+// whether the part of `name` in front of it contains a '{'.
+func scanRevision(name string) (colon int, braces bool) {
 	depth := 0
 	for i := 0; i < len(name); i++ {
 		switch {
 		case name[i] == '{':
 			depth++
+			braces = true
 		case name[i] == '}' && depth > 0:
 			depth--
 		case name[i] == ':' && depth == 0:
-			if i == len(name)-1 || name[len(name)-1] == '/' {
-				return name
-			}
-			return name + "/"
+			return i, braces
 		}
 	}
-	return name + ":"
+	return -1, braces
+}
+
+// rootTreePrefix returns the prefix to use for the entries of a tree
+// with the specified `oid` that was named directly by `name` (a
+// reference name or a command-line argument). If `name` is already of
+// the form `<rev>:<path>`, then further path components can be
+// appended to it; otherwise, they have to be separated from it by a
+// colon. A path cannot reliably be appended to a revision containing
+// braces: Git does not see a ':' that follows an unclosed '{' (e.g.,
+// in `refs/heads/a{b:file`), and it reads `HEAD^{tree}:a/b}` as
+// `HEAD^{tree}`. In that case, name the tree by its OID.
+func rootTreePrefix(name string, oid git.OID) string {
+	colon, braces := scanRevision(name)
+	switch {
+	case braces:
+		return oid.String() + ":"
+	case colon == -1:
+		return name + ":"
+	case colon == len(name)-1 || name[len(name)-1] == '/':
+		return name
+	default:
+		return name + "/"
+	}
 }
 
 // Return a human-readable path for this object if we can do better
